@@ -236,6 +236,9 @@ class URL:
         server: typing.Optional[typing.Tuple[str, typing.Optional[int]]] = None,
         host_header: typing.Optional[str] = None,
     ) -> str:
+        # The path is percent-decoded: keep a literal "%", "?" or "#" inside the path
+        path = path.replace("%", "%25").replace("?", "%3F").replace("#", "%23")
+
         if host_header is not None:
             url = f"{scheme}://{host_header}{path}"
         elif server is None:
